@@ -126,6 +126,19 @@ def oracle_filter(ck, rng):
             if np.asarray(p).shape != sh or np.abs(np.asarray(p) - a).max() > 1e-6: fails.append("pipe")
             pre = np.asarray(ZNCCAlignment(y, cutoff=cutoff).pre_transform(xp.asarray(x), xp))
             if order == 2 and np.abs(pre - ft).max() > 1e-3 * max(1, np.abs(ft).max()): fails.append("model.pre_transform")
+        if a.shape == sh:
+            # the filter has no memory: interleaving other filter calls (high-pass variants share the cached weights) changes nothing
+            from acryo._utils import highpass_filter as hu, highpass_filter_ft as hfu
+            h1 = hu(x, cutoff, order)
+            a2 = lu(x, cutoff, order)
+            _ = hfu(x, cutoff, order)
+            ft2 = np.asarray(lfu(x, cutoff, order))
+            _ = pipe.highpass_filter(cutoff, order).convert(y, 1.0)
+            a3 = np.asarray(pipe.lowpass_filter(cutoff, order).convert(x, 1.0))
+            if a2.shape != a.shape or np.abs(a2 - a).max() > 1e-6 or np.abs(ft2 - ft).max() > 1e-5 * max(1, np.abs(ft).max()) or np.abs(a3 - a).max() > 1e-6:
+                fails.append("call-history")
+            if 0 < cutoff < 0.5 * np.sqrt(3) and np.abs((a + h1) - x).max() > 1e-4 * max(1, np.abs(x).max()):
+                fails.append("low+high")
         ck.oracle_count("filter_laws", 1, 1)
         for fl in fails:
             ck.violation(what=f"low-pass filter law violated: {fl}", inp=c, key={"site": "filter", "law": fl, "odd_last": sh[2] % 2 == 1},
